@@ -55,7 +55,13 @@ def _predict_forest_keys(db, ev):
             return RuleBucket.EQUIV
         return RuleBucket.REVERSE if reverse else RuleBucket.NORMAL
 
-    nonempty = sum(1 for c in rule.children if not _truly_empty(c))
+    # a child counts as empty only when the rule admits empty children: for a rule with
+    # possibly_empty False the searcher tells the class database that the children are
+    # non-empty (the strategy's documented promise), and the keys are computed from that
+    def child_empty(c):
+        return bool(rule.possibly_empty) and _truly_empty(c)
+
+    nonempty = sum(1 for c in rule.children if not child_empty(c))
     keys = [ForestRuleKey(start, labels, tuple(rule.shifts()), bucket_of(rule, nonempty, False))]
     if db.reverse and rule.is_reversible():
         sh = tuple(rule.shifts())
@@ -64,8 +70,8 @@ def _predict_forest_keys(db, ev):
             pshift = -sh[i]
             rsh = (pshift,) + tuple(s + pshift for j, s in enumerate(sh) if j != i)
             rlabels = (start,) + tuple(l for j, l in enumerate(labels) if j != i)
-            rchildren = (rule.comb_class,) + tuple(c for j, c in enumerate(rule.children) if j != i)
-            rnonempty = sum(1 for c in rchildren if not _truly_empty(c))
+            others = tuple(c for j, c in enumerate(rule.children) if j != i)
+            rnonempty = (0 if _truly_empty(rule.comb_class) else 1) + sum(1 for c in others if not child_empty(c))
             keys.append(ForestRuleKey(labels[i], rlabels, rsh, bucket_of(rev, rnonempty, True)))
     return keys
 
